@@ -18,7 +18,7 @@ ASSUMPTIONS = ["reference Hamiltonian built from the lattice's stored terms with
                "linear custom candidates use dyadic coefficients so that quantum numbers are exact in floating point (the non-dyadic case is the known finding D15)",
                "whether an invalid candidate is rejected is not judged; only the consequences of what was accepted"]
 CONFIG = {
-    "quick": {"flavours": ["real", "complex"], "shards": 8, "examples": 150, "min_nontrivial": 50, "budget_s": 100},
+    "quick": {"flavours": ["real", "complex"], "shards": 8, "examples": 800, "min_nontrivial": 50, "budget_s": 120},
     "thorough": {"flavours": ["real", "complex"], "shards": 16, "examples": 2500, "min_nontrivial": 2000, "budget_s": 3000},
 }
 REQUIRED_CLASSES = {"quick": ["heterogeneous", "custom-accepted", "n-or-sz-broken", "non-spin-half-site", "symm-default"],
